@@ -1719,7 +1719,7 @@ class Quantity(metaclass=QuantityMeta):
         if isinstance(other, Rational):
             return (other / self.amount) * self.unit ** -1
         if isinstance(other, Real):
-            return (other / Decimal(self.amount)) * self.unit ** -1
+            return (Decimal(other) / self.amount) * self.unit ** -1
         return NotImplemented
 
     def __pow__(self, exp: int) -> Quantity:
